@@ -73,6 +73,11 @@ def gen_workload(tape):
     if family == 'inference':
         spec = sp.gen_inference_spec(tape, disc_kinds=('disc', 'dist'), ties=False, all_rec=True,
                                      latent=True)
+        d = [n for n in spec['nodes'] if n['name'] == 'd'][0]
+        if d['kind'] == 'disc' and tape.chance('lattice', 1, 3):
+            # count-like discrepancies: exact ties, and thresholds that are exactly 0
+            d['cfg']['lattice'] = tape.choice('lattice_n', [3, 5, 10]) if spec['mode'] == 'mix' \
+                else tape.choice('lattice_s', [2, 4, 10])
         names = [n['name'] for n in spec['nodes']]
         stochastic = True
     else:
